@@ -181,6 +181,63 @@ def union_family():
     return pats, reqs
 
 
+def _seq(symbols):
+    r = ("sym", symbols[-1]) if symbols[-1] != "." else R.ANY
+    for x in reversed(symbols[:-1]):
+        r = ("cat", ("sym", x) if x != "." else R.ANY, r)
+    return r
+
+
+def rejoin_family():
+    """(P1 | P2) T: two routes that contain the required symbol m once each (at different
+    positions) re-join before a tail that needs further insertions -- exposes search pruning
+    that forgets the remaining insertion budget.  Epsilon-free, so F5-free."""
+    routes = [s for n in (2, 3) for s in itertools.product(("a", "b", "m"), repeat=n) if s.count("m") == 1]
+    tails = [(), ("q",), ("q", "y"), ("q", "y", "y")]
+    out = []
+    for i, p1 in enumerate(routes):
+        for p2 in routes[i + 1 :]:
+            for tail in tails:
+                alt = ("alt", _seq(p1), _seq(p2))
+                out.append(("cat", alt, _seq(tail)) if tail else alt)
+    return out
+
+
+def loop_pair_family():
+    """[(first pattern, second pattern)]: a wildcard-free looping pattern together with a
+    pattern that forces a fixed run of insertions -- exposes state shared between matchers
+    or cached across steps."""
+    x, y = ("sym", "x"), ("sym", "y")
+    loops = [
+        ("cat", ("star", x), y),
+        ("star", ("alt", x, y)),
+        ("cat", ("star", x), ("star", y)),
+        ("cat", ("plus", x), y),
+        ("cat", ("star", ("alt", x, ("sym", "z"))), y),
+        ("star", ("cat", x, y)),
+    ]
+    loops = [p for p in loops if equivalent_models(p, ("x", "y", "z", "c"))]
+    seconds = [_seq(s) for n in (2, 3, 4) for s in itertools.product(("x", "y", "."), repeat=n)]
+    seconds += [("cat", _seq(s), ("star", R.ANY)) for n in (2, 3) for s in itertools.product(("x", "y", "z"), repeat=n)]
+    return [(a, b) for a in loops for b in seconds]
+
+
+def _shard_families(arg):
+    w, n = arg
+    t = Tally()
+    for p in rejoin_family()[w::n]:
+        for lim in (1, 2, 3):
+            run_case(("m",), [p], lim, None, t, "rejoin-family")
+            t.count("family_calls")
+    reqs = [r for k in range(0, 3) for r in itertools.product(("x", "y"), repeat=k)]
+    for a, b in loop_pair_family()[w::n]:
+        for r in reqs:
+            run_case(r, [a, b], 3, None, t, "loop-pair-family")
+            run_case(r, [b, a], 3, None, t, "loop-pair-family")
+            t.count("family_calls", 2)
+    return t
+
+
 def _shard_union(arg):
     w, n = arg
     pats, reqs = union_family()
@@ -249,8 +306,9 @@ def run(ctx):
     total = pool.map_shards(_shard, [(ctx.tier, w, n) for w in range(n)])
     total.merge(pool.map_shards(_shard_real, [(w, 32) for w in range(32)]))
     total.merge(pool.map_shards(_shard_union, [(w, 32) for w in range(32)]))
+    total.merge(pool.map_shards(_shard_families, [(w, 64) for w in range(64)]))
     upats, ureqs = union_family()
-    expected = len(cases) + len(real_cases()) + len(upats) * len(ureqs) * 2
+    expected = len(cases) + len(real_cases()) + len(upats) * len(ureqs) * 2 + len(rejoin_family()) * 3 + len(loop_pair_family()) * 7 * 2
     if total.n["calls"] != expected:
         total.error("evaluated %d of %d" % (total.n["calls"], expected))
     total.sample("generated", {"required": ["b"], "patterns": ["(a b) | (b (c c))"], "depth_limit": 3})
@@ -266,6 +324,8 @@ def run(ctx):
             "depth_limits": [1, 2, 3],
             "generated_cases": len(cases),
             "real_cases": len(real_cases()),
+            "rejoin_family": "%d patterns (P1 | P2) T x depth_limit {1,2,3}, required [m]" % len(rejoin_family()),
+            "loop_pair_family": "%d ordered pattern pairs (loop, forced run) x required lists over {x,y} up to length 2, both orders" % len(loop_pair_family()),
             "union_family": "all (s1 s2 [s3]) | (t1 t2 [t3]) over {a,b,c} (%d patterns) x required lists over {a,b} up to length 2 x depth_limit {1,3}" % len(upats),
         },
         "rule": "every (required list, pattern set, depth_limit, symbol_priority) of the stated product is given to the real make_matching_sequence and judged against a reference shortest-completion search with a visited set; states = distinct inputs whose answer needed insertions",
